@@ -162,8 +162,8 @@ Fixpoint srun (sc : script) (s : store) (p : nat) (h : list sop) : list (sop * s
   | o :: r => let x := sstep sc s p o in (o, x) :: srun sc (sst x) (spos x) r
   end.
 
-Definition sfinal (s : store) (t : list (sop * sout)) : store :=
-  match rev t with [] => s | (_, x) :: _ => sst x end.
+Fixpoint sfinal (s : store) (t : list (sop * sout)) : store :=
+  match t with [] => s | (_, x) :: t' => sfinal (sst x) t' end.
 
 (* did the call report an error to the caller? *)
 Definition is_err (r : sres) : bool :=
@@ -197,3 +197,4 @@ Arguments SRawSet {K V}.
 Arguments SVal {K V}. Arguments SBool {K V}. Arguments SOk {K V}. Arguments SErr {K V}.
 Arguments SList {K V}. Arguments SKeys {K V}.
 Arguments mkSOut {K V}. Arguments sst {K V}. Arguments spos {K V}. Arguments sresult {K V}.
+Arguments is_err {K V}. Arguments is_fault {K V}.
